@@ -449,6 +449,101 @@ Definition same_file_id (f f' : fileinfo) : Prop :=
   f_id f' = f_id f /\ f_vol f' = f_vol f /\ f_mode f' = f_mode f /\ f_entry f' = f_entry f /\
   f_dirty f' = f_dirty f.
 
+(* ------------------------------------------------------------------ replacing bytes inside file_bytes *)
+Lemma set_bytes_middle (P old S l : list N) off boff :
+  N.to_nat off = (length P + N.to_nat boff)%nat -> (N.to_nat boff + length l <= length old)%nat ->
+  set_bytes (P ++ old ++ S) off l = P ++ set_bytes old boff l ++ S.
+Proof.
+  intros E H. unfold set_bytes. rewrite E.
+  rewrite firstn_app. rewrite firstn_all2 by lia.
+  replace (length P + N.to_nat boff - length P)%nat with (N.to_nat boff) by lia.
+  rewrite firstn_app. replace (N.to_nat boff - length old)%nat with 0%nat by lia.
+  cbn [firstn]. rewrite app_nil_r.
+  rewrite skipn_app. rewrite skipn_all2 by lia.
+  replace (length P + N.to_nat boff + length l - length P)%nat with (N.to_nat boff + length l)%nat by lia.
+  cbn [app]. rewrite skipn_app.
+  replace (N.to_nat boff + length l - length old)%nat with 0%nat by lia. cbn [skipn].
+  rewrite <- !app_assoc. reflexivity.
+Qed.
+
+Lemma firstn_blocks_from : forall q n i, (q <= n)%nat -> firstn q (blocks_from n i) = blocks_from q i.
+Proof.
+  induction q as [|q IH]; intros n i H; [reflexivity|]. destruct n as [|n]; [lia|].
+  cbn [blocks_from firstn]. rewrite IH by lia. reflexivity.
+Qed.
+
+Lemma skipn_blocks_from : forall q n i, skipn q (blocks_from n i) = blocks_from (n - q) (i + N.of_nat q).
+Proof.
+  induction q as [|q IH]; intros n i.
+  - cbn [skipn]. rewrite Nat.sub_0_r. f_equal. cbn. lia.
+  - destruct n as [|n]; [reflexivity|]. cbn [blocks_from skipn]. rewrite IH. cbn [Nat.sub]. f_equal. lia.
+Qed.
+
+Lemma blocks_wf_set d i b : blocks_wf d -> length b = 512%nat -> blocks_wf (disk_set d i b).
+Proof.
+  intros H Hb j. destruct (N.eq_dec i j) as [<-|Hne].
+  - rewrite disk_get_set_same. exact Hb.
+  - rewrite disk_get_set_other by exact Hne. apply H.
+Qed.
+
+(* the bytes around block q of cluster cj do not depend on that block *)
+Lemma fb_around_frame d d' v ch j cj q :
+  NoDup ch -> Forall (fun c => 2 <= c) ch -> nth_error ch j = Some cj ->
+  (q < N.to_nat (v_spc v))%nat ->
+  (forall b, b <> cluster_first_block v cj + N.of_nat q -> disk_get d' b = disk_get d b) ->
+  fb_prefix d' v ch j cj q = fb_prefix d v ch j cj q /\
+  fb_suffix d' v ch j cj q = fb_suffix d v ch j cj q.
+Proof.
+  intros Hnd Hr Hj Hq Hfr.
+  assert (Hcj2 : 2 <= cj) by (rewrite Forall_forall in Hr; apply Hr; eapply nth_error_In; exact Hj).
+  assert (Hblk : In (cluster_first_block v cj + N.of_nat q) (cluster_blocks v cj))
+    by (apply In_blocks_from_intro; exact Hq).
+  pose proof (nth_error_firstn_skipn ch j cj Hj) as Esplit.
+  assert (Hnot : ~ In cj (firstn j ch ++ skipn (S j) ch))
+    by (apply NoDup_remove_2; rewrite <- Esplit; exact Hnd).
+  assert (Hother : forall c, In c ch -> c <> cj -> cluster_bytes d' v c = cluster_bytes d v c).
+  { intros c Hc Hne. unfold cluster_bytes. apply flat_map_ext_in. intros b Hb. apply Hfr.
+    rewrite Forall_forall in Hr.
+    intros E. subst b.
+    exact (cluster_blocks_apart v c cj _ _ Hne (Hr c Hc) Hcj2 Hb Hblk eq_refl). }
+  unfold fb_prefix, fb_suffix. split; f_equal.
+  - apply flat_map_ext_in. intros c Hc. apply Hother.
+    + rewrite Esplit. apply in_or_app. left. exact Hc.
+    + intros E. subst c. apply Hnot. apply in_or_app. left. exact Hc.
+  - apply flat_map_ext_in. intros b Hb. apply Hfr.
+    unfold cluster_blocks in Hb. rewrite firstn_blocks_from in Hb by lia.
+    destruct (In_blocks_from _ _ _ Hb) as (k & Hk & ->). lia.
+  - apply flat_map_ext_in. intros b Hb. apply Hfr.
+    unfold cluster_blocks in Hb. rewrite skipn_blocks_from in Hb.
+    destruct (In_blocks_from _ _ _ Hb) as (k & Hk & ->). lia.
+  - apply flat_map_ext_in. intros c Hc. apply Hother.
+    + rewrite Esplit. apply in_or_app. right. right. exact Hc.
+    + intros E. subst c. apply Hnot. apply in_or_app. right. exact Hc.
+Qed.
+
+(* chains depend only on the FAT entries *)
+Lemma chain_of_frame d d' v : (forall c, c < v_clusters v + 2 -> fat_entry d' v c = fat_entry d v c) ->
+  forall f c, chain_of d' v c f = chain_of d v c f.
+Proof.
+  intros H. induction f as [|f IH]; intros c; [reflexivity|]. cbn [chain_of].
+  destruct ((2 <=? c) && (c <? v_clusters v + 2)) eqn:Hr; [|reflexivity].
+  apply andb_true_iff in Hr. destruct Hr as [_ Hr]. apply N.ltb_lt in Hr.
+  cbv zeta. rewrite (H c Hr). rewrite IH. reflexivity.
+Qed.
+
+(* the sectors of the first FAT copy lie before the data area *)
+Definition fat_below_data (v : vol) : Prop :=
+  forall c, c < v_clusters v + 2 -> v_fat_start v + (c * fat_w v) / 512 < v_first_data v.
+
+Lemma chain_of_data_write d v cj q nb : fat_below_data v -> 2 <= cj ->
+  forall f c, chain_of (disk_set d (cluster_first_block v cj + q) nb) v c f = chain_of d v c f.
+Proof.
+  intros Hfb H2. apply chain_of_frame. intros c Hc. unfold fat_entry.
+  rewrite disk_get_set_other; [reflexivity|].
+  specialize (Hfb c Hc). unfold cluster_first_block.
+  remember ((cj - 2) * v_spc v) as X. remember (c * fat_w v / 512) as Y. lia.
+Qed.
+
 (* ================================================================== the chain of one file *)
 Section Chain.
   Variable v : vol.
@@ -972,4 +1067,132 @@ Section Chain.
     exact Hrun.
   Qed.
 
+  (* ---------------------------------------------------------------- the write, at the level of the file *)
+  (* replacing bytes [boff, boff + |chunk|) of the block that holds offset off IS replacing
+     bytes [off, off + |chunk|) of the file's byte array *)
+  Theorem write_chunk_file_bytes off cj chunk : blocks_wf D ->
+    nth_error ch (N.to_nat (off / B)) = Some cj -> off mod 512 + N.of_nat (length chunk) <= 512 ->
+    file_bytes (disk_set D (cluster_first_block v cj + (off mod B) / 512)
+                  (set_bytes (disk_get D (cluster_first_block v cj + (off mod B) / 512)) (off mod 512) chunk))
+               v ch
+    = set_bytes (file_bytes D v ch) off chunk.
+  Proof.
+    intros Hwf Hn Hlen. pose proof B_pos as HB.
+    assert (Hq : (off mod B) / 512 < v_spc v) by (apply div512_lt; apply N.mod_lt; lia).
+    assert (Hq' : (N.to_nat ((off mod B) / 512) < N.to_nat (v_spc v))%nat) by lia.
+    set (blk := cluster_first_block v cj + (off mod B) / 512).
+    set (nb := set_bytes (disk_get D blk) (off mod 512) chunk).
+    assert (Hnd : NoDup ch) by exact (chain_of_nodup _ _ _ _ _ Hch).
+    assert (Hr : Forall (fun c => 2 <= c) ch).
+    { pose proof (chain_of_range _ _ _ _ _ Hch) as R. rewrite Forall_forall in *.
+      intros c Hc. exact (proj1 (R c Hc)). }
+    destruct (fb_around_frame D (disk_set D blk nb) v ch _ cj _ Hnd Hr Hn Hq') as (EP & ES).
+    { intros b Hb. apply disk_get_set_other. rewrite N2Nat.id in Hb. fold blk in Hb. congruence. }
+    rewrite (file_bytes_locate (disk_set D blk nb) v ch _ cj _ Hn Hq').
+    rewrite (file_bytes_locate D v ch _ cj _ Hn Hq').
+    rewrite EP, ES. rewrite N2Nat.id. fold blk. rewrite disk_get_set_same.
+    symmetry. apply set_bytes_middle.
+    - rewrite (fb_prefix_length D v ch _ cj _ Hwf Hn Hq'). apply offset_split.
+    - rewrite Hwf. lia.
+  Qed.
+
+  (* 4, in the words of C01: one iteration of write_loop on an allocated position replaces
+     bytes [off, off + to_copy) of the file's byte array by the first to_copy bytes of the
+     data, leaves every block outside the file alone, and keeps the device well formed *)
+  Theorem C01_write_step_bytes fu fi vi f data s :
+    nth_error (s_vols s) vi = Some v -> nth_error (s_files s) fi = Some f ->
+    s_disk s = D -> no_faults s -> cache_ok s -> blocks_wf D ->
+    e_cluster (f_entry f) = first ->
+    cursor_ok v ch (f_cur_off f, f_cur_cluster f) \/ f_offset f < f_cur_off f ->
+    f_offset f < N.of_nat (length ch) * B -> f_offset f < U32 -> data <> [] ->
+    exists cj s',
+      nth_error ch (N.to_nat (f_offset f / B)) = Some cj /\
+      write_loop (S fu) fi vi data s =
+        write_loop fu fi vi (skipn (N.to_nat (wr_to_copy (f_offset f) data)) data) s' /\
+      file_bytes (s_disk s') v ch =
+        set_bytes (file_bytes D v ch) (f_offset f)
+                  (firstn (N.to_nat (wr_to_copy (f_offset f) data)) data) /\
+      blocks_wf (s_disk s') /\
+      (fat_below_data v -> forall f0 c0, chain_of (s_disk s') v c0 f0 = chain_of D v c0 f0) /\
+      s_files s' = list_set (s_files s) fi
+                     (wr_file f (f_offset f / B * B, cj) (wr_to_copy (f_offset f) data)) /\
+      cache_ok s' /\ no_faults s' /\ same_but_files s s'.
+  Proof.
+    intros Hvi Hfi Hd Hnf Hc Hwf Hfirst Hcur Hin H32 Hdata.
+    destruct (write_one_chunk_in_place fu fi vi f data s Hvi Hfi Hd Hnf Hc Hwf Hfirst Hcur Hin H32 Hdata)
+      as (cj & s' & Hn & Hrun & Hd' & Hrest).
+    exists cj, s'. split; [exact Hn|]. split; [exact Hrun|].
+    assert (Hcl : f_offset f mod 512 +
+                  N.of_nat (length (firstn (N.to_nat (wr_to_copy (f_offset f) data)) data)) <= 512).
+    { rewrite firstn_length. unfold wr_to_copy. lia. }
+    rewrite Hd'. split; [apply write_chunk_file_bytes; assumption|].
+    split.
+    { apply blocks_wf_set; [exact Hwf|]. rewrite set_bytes_length; [apply Hwf|]. rewrite Hwf. lia. }
+    split; [|exact Hrest].
+    intros Hfb. destruct (chain_of_links _ _ _ _ _ Hch _ cj Hn) as (R1 & _ & _).
+    apply chain_of_data_write; assumption.
+  Qed.
+
 End Chain.
+
+(* ------------------------------------------------------------------ the hypotheses are satisfiable *)
+(* PrDir's FAT16 volume (2 blocks per cluster) whose chain 2 -> 3 -> end is now a file of 1500
+   bytes, open with handle 7 at offset 700, cursor on the first cluster *)
+Definition exr_entry : dirent :=
+  mk_dirent exd_name (mk_ts 0 0 0 0 0 0) (mk_ts 0 0 0 0 0 0) 32 2 1500 22 0.
+Definition exr_file : fileinfo := mk_fileinfo 7 0 0 2 700 ReadWriteAppend exr_entry false.
+Definition exr_state : st :=
+  mk_st exd_disk zero_block None [exd_vol] [] [exr_file] 8 0 0 [] [] false 1 1 1.
+
+Lemma exd_disk_wf : blocks_wf exd_disk.
+Proof.
+  intros i. unfold exd_disk.
+  destruct (N.eq_dec 30 i) as [<-|H30]; [rewrite disk_get_set_same; reflexivity|].
+  rewrite disk_get_set_other by exact H30.
+  destruct (N.eq_dec 11 i) as [<-|H11]; [rewrite disk_get_set_same; reflexivity|].
+  rewrite disk_get_set_other by exact H11.
+  unfold disk_get. rewrite PositiveMap.gempty. reflexivity.
+Qed.
+
+Example rw_example :
+  vol_ok exd_vol /\ 0 < v_spc exd_vol /\
+  chain_of exd_disk exd_vol 2 (walk_fuel exd_vol) = Some [2; 3] /\
+  no_faults exr_state /\ cache_ok exr_state /\ blocks_wf exd_disk /\
+  s_lock exr_state = false /\
+  find_idx (fun g => f_id g =? 7) (s_files exr_state) 0 = Some 0%nat /\
+  nth_error (s_files exr_state) 0 = Some exr_file /\
+  find_idx (fun w => v_id w =? f_vol exr_file) (s_vols exr_state) 0 = Some 0%nat /\
+  nth_error (s_vols exr_state) 0 = Some exd_vol /\
+  e_cluster (f_entry exr_file) = 2 /\
+  cursor_ok exd_vol [2; 3] (f_cur_off exr_file, f_cur_cluster exr_file) /\
+  f_offset exr_file <= e_size (f_entry exr_file) /\
+  e_size (f_entry exr_file) <= N.of_nat (length [2; 3]) * bytes_per_cluster exd_vol /\
+  e_size (f_entry exr_file) < U32 /\
+  (* and the conclusions, computed: the read crosses a block and a cluster boundary *)
+  fst (mgr_read 7 2000 exr_state) = Ok (firstn 800 (skipn 700 (file_bytes exd_disk exd_vol [2; 3]))) /\
+  length (firstn 800 (skipn 700 (file_bytes exd_disk exd_vol [2; 3]))) = 800%nat /\
+  firstn 12 (file_bytes exd_disk exd_vol [2; 3]) = exd_name ++ [32].
+Proof.
+  split; [constructor; try (intros _); vm_compute; reflexivity|].
+  split; [reflexivity|]. split; [vm_compute; reflexivity|].
+  split; [intros n H; destruct H|]. split; [intros i H; discriminate H|].
+  split; [exact exd_disk_wf|].
+  split; [reflexivity|]. split; [reflexivity|]. split; [reflexivity|]. split; [reflexivity|].
+  split; [reflexivity|]. split; [reflexivity|].
+  split; [exists 0%nat; split; reflexivity|].
+  split; [vm_compute; discriminate|]. split; [vm_compute; discriminate|].
+  split; [reflexivity|].
+  split; [vm_compute; reflexivity|]. split; vm_compute; reflexivity.
+Qed.
+
+Print Assumptions find_data_on_disk_spec.
+Print Assumptions find_data_on_disk_eof.
+Print Assumptions write_block_step.
+Print Assumptions write_one_chunk_in_place.
+Print Assumptions C01_isolation_step.
+Print Assumptions write_chunk_file_bytes.
+Print Assumptions C01_write_step_bytes.
+Print Assumptions read_one_chunk.
+Print Assumptions read_loop_spec.
+Print Assumptions mgr_read_spec.
+Print Assumptions rw_example.
